@@ -10,6 +10,7 @@ import (
 	utils "github.com/alibaba/RedisShake/redis-shake/common"
 	conf "github.com/alibaba/RedisShake/redis-shake/configure"
 	"github.com/alibaba/RedisShake/redis-shake/dbSync/latencymonitor"
+	"github.com/alibaba/RedisShake/redis-shake/dbSync/slot"
 	"github.com/alibaba/RedisShake/redis-shake/filter"
 
 	"github.com/alibaba/RedisShake/pkg/simrt/tape"
@@ -76,8 +77,31 @@ func runC15Shard(c *core.Ctx) *core.Violation {
 		l, r = []int{0, 5461, 10923}[t.Choose(3)], 0
 		r = l + 5460
 	}
-	c.Sample = map[string]interface{}{"sub": "shard-sync", "slot_range": fmt.Sprintf("[%d,%d]", l, r)}
-	c.Key = uint64(l)<<20 | uint64(r)
+	// further shards of the same cluster, synced by their own DbSyncer in the same process at the same time
+	type shard struct {
+		l, r int
+		addr string
+	}
+	shards := []shard{{l, r, srcAddr}}
+	if more := t.Choose(3); more > 0 {
+		for i := 1; i <= more; i++ {
+			var sl, sr int
+			switch t.Choose(3) {
+			case 0:
+				sl = t.Choose(16384)
+				sr = sl + t.Choose(minI(64, 16384-sl))
+			case 1:
+				sl = t.Choose(16384)
+				sr = sl + t.Choose(16384-sl)
+			default:
+				sl = (5461 * i) % 16384
+				sr = minI(sl+5460, 16383)
+			}
+			shards = append(shards, shard{sl, sr, fmt.Sprintf("10.0.0.%d:6379", 10+i)})
+		}
+	}
+	c.Sample = map[string]interface{}{"sub": "shard-sync", "slot_range": fmt.Sprintf("[%d,%d]", l, r), "shards": len(shards)}
+	c.Key = uint64(l)<<20 | uint64(r) | uint64(len(shards))<<40
 	var viol *core.Violation
 	s := simrt.Run(c.TT, t, simrt.Config{MaxSteps: 2000000, MaxSimTime: time.Hour, Trace: c.Trace}, func(s *simrt.Sim) {
 		e := NewSyncEnv(c, s, lc)
@@ -90,8 +114,22 @@ func runC15Shard(c *core.Ctx) *core.Violation {
 			{Kind: "key", Key: []byte("ordinary"), Val: &rc.Value{Kind: rc.KString, Str: []byte("v")}, Type: rc.TString}}
 		e.Src.RDB, _ = rc.WriteRDB(9, items, rc.Zero, true)
 		e.Src.Stream = append(respCmd(bs("SELECT", "0")...), respCmd(bs("SET", "after", "1")...)...)
+		for i := 1; i < len(shards); i++ {
+			m := e.AddSource()
+			m.RDB, _ = smallRDB(t, 0)
+			m.Stream = append(respCmd(bs("SELECT", "0")...), respCmd(bs("SET", fmt.Sprintf("after-%d", i), "1")...)...)
+		}
+		e.NodeTweak = func(i int, nd *slot.SyncNode) { nd.SlotLeftBoundary, nd.SlotRightBoundary = shards[i].l, shards[i].r }
 		e.StartTool()
-		e.WaitUntil(20*time.Second, 100*time.Millisecond, func() bool { return len(e.IncrLog()) >= 1 })
+		e.WaitUntil(30*time.Second, 100*time.Millisecond, func() bool {
+			n := 0
+			for _, a := range e.Tgt.Applied {
+				if a.Name() == "set" && strings.HasPrefix(string(a.Args[1]), "after") {
+					n++
+				}
+			}
+			return n >= len(shards)
+		})
 		s.Sleep(1500 * time.Millisecond)
 		if e.ToolAborted() {
 			viol = core.Violate("abort", "shard,err="+env.ErrClass(e.AbortText()), "shard sync aborted: %s", e.AbortText())
@@ -112,9 +150,32 @@ func runC15Shard(c *core.Ctx) *core.Violation {
 			viol = core.Violate("checkpoint-key-range", "never-used", "resume is enabled but the tool never touched a checkpoint key on the target")
 			return
 		}
+		// each shard's syncer stores fields named after its own source address: its key must hash into its own range
+		for _, a := range e.Tgt.Applied {
+			if a.Name() != "hset" || len(a.Args) < 3 || !strings.HasPrefix(string(a.Args[1]), "redis-shake-checkpoint") {
+				continue
+			}
+			for _, sh := range shards {
+				if strings.HasPrefix(string(a.Args[2]), sh.addr+"-") {
+					if sl := rc.KeySlot(a.Args[1]); sl < sh.l || sl > sh.r {
+						viol = core.Violate("checkpoint-key-range", fmt.Sprintf("used-outside,shards=%d", minI(len(shards), 2)), "the syncer of shard %s [%d,%d] stores its checkpoint in %q, which hashes to slot %d", sh.addr, sh.l, sh.r, a.Args[1], sl)
+						return
+					}
+				}
+			}
+		}
+		if len(shards) > 1 {
+			c.Probe("several_shards_at_once")
+		}
 		for k := range seen {
-			if sl := rc.KeySlot([]byte(k)); sl < l || sl > r {
-				viol = core.Violate("checkpoint-key-range", "used-outside", "the shard syncer uses checkpoint key %q, which hashes to slot %d outside [%d,%d]", k, sl, l, r)
+			inSome := false
+			for _, sh := range shards {
+				if sl := rc.KeySlot([]byte(k)); sl >= sh.l && sl <= sh.r {
+					inSome = true
+				}
+			}
+			if !inSome {
+				viol = core.Violate("checkpoint-key-range", "used-outside", "a shard syncer uses checkpoint key %q, which hashes to slot %d outside every shard's range %v", k, rc.KeySlot([]byte(k)), shards)
 				return
 			}
 		}
@@ -260,6 +321,6 @@ func init() {
 			"the cluster client library's GetSlot (used by ChoseSlotInRange) is third-party code and is only judged through the returned key",
 		},
 		RealVsStub: "shard part: real dbSync pipeline + checkpoint loader against simulated master/target; direct part: real: utils.KeyToSlot, utils crc16, latencymonitor crc16/findKeyInRange (reached through scratch-only export shims), utils.ChoseSlotInRange, filter.FilterKey; no simulated component is involved",
-		ProbeNames: []string{"single_slot_range", "several_open_braces", "empty_tag", "shard_sync_observed"},
+		ProbeNames: []string{"several_shards_at_once", "single_slot_range", "several_open_braces", "empty_tag", "shard_sync_observed"},
 	})
 }
